@@ -263,6 +263,10 @@ class Ombott:
         try:
             path = path.encode('latin1').decode('utf8')
         except UnicodeError:
+            # nothing of the previous request may survive on this thread
+            environ['ombott.app'] = self
+            request.__init__(environ)
+            response.__init__()
             return HTTPError(400, 'Invalid path string. Expected UTF-8')
         environ['PATH_INFO'] = path
         try:  # init thread
